@@ -113,3 +113,40 @@ func H02Hist() {
 	vAssert("hist/bystander-untouched", ok && by.Data == "bystander")
 	vObservef("%s pre=%s -> %s objects=%d", kind, histString(pre), histString(h), len(w.kube.cluster))
 }
+
+// H02Install: a first install over objects left in the cluster by an earlier
+// life of the same release (kept by the keep policy, or adopted with
+// --take-ownership): after success every resource of the manifest exists with
+// the manifest's content — those that were already there and those that were not
+// — and a bystander is untouched.
+func H02Install() {
+	w := newWorld(newFaultPlan(0, 0, "kube"))
+	bystander := objKey{"ConfigMap", "default", "zz"}
+	w.kube.cluster[bystander] = &symObj{Data: "bystander"}
+	w.kube.cluster[bystander].Kind, w.kube.cluster[bystander].Name, w.kube.cluster[bystander].Namespace = "ConfigMap", "zz", "default"
+	take := ndBool("takeOwnership")
+	// leftovers: each of a, b may be there, owned by this release (3) or — with take-ownership — by nobody (1)
+	for _, n := range []string{"a", "b"} {
+		switch ndChoice("leftover."+n, 3) {
+		case 1:
+			plantObject(w, n, 3)
+		case 2:
+			if take {
+				plantObject(w, n, 1)
+			}
+		}
+	}
+	inst := NewInstall(w.config())
+	inst.ReleaseName, inst.Namespace, inst.TakeOwnership = relName, "default", take
+	inst.Force = ndBool("force")
+	rel, err := inst.Run(mkChart(ndChoice("chart", 3), false), map[string]interface{}{})
+	vAssert("install/succeeds-over-own-leftovers", err == nil && rel != nil)
+	for k, data := range manifestObjects(rel.Manifest) {
+		o, ok := w.kube.cluster[k]
+		vAssert("install/every-manifest-resource-exists", ok)
+		vAssert("install/with-the-content-the-manifest-specifies", o.Data == data)
+	}
+	by, ok := w.kube.cluster[bystander]
+	vAssert("install/bystander-untouched", ok && by.Data == "bystander")
+	vObservef("objects=%d", len(w.kube.cluster))
+}
